@@ -173,6 +173,17 @@ CHECKS['C16'] = dict(
          'the right arguments. Held-on-explored; server product exhaustive.',
     note='timedeltas in whole milliseconds.',
     design='4/C16')
+CHECKS['C17'] = dict(
+    category='exploration',
+    technique='post-reconnect oracle over per-connection taps and recorded application state: seeded sequences of connection endings and reconnect requests against fresh real servers under a virtual clock',
+    text='A real client whose provider yields a fresh link to a fresh real server per connection goes through 1..3 rounds of '
+         '{server EOF, transport error, silent server (keepalive timeout), explicit reconnect while healthy} with '
+         'reconnect() called from on_close, on_keepalive_timeout or an unrelated task at seeded instants and with '
+         'interactions pending. After each round: old transport closed, old requests completed or failed, provider '
+         'asked, SETUP first on the new transport, stream ids restart at 1, a KEEPALIVE within one period, a fresh '
+         'request answered. Held-on-explored.',
+    note='served = answered within 30 virtual seconds.',
+    design='4/C17')
 CHECKS['C18'] = dict(
     category='exploration',
     technique='round-trip oracle over seeded composite-metadata values with boundary lengths, differential across codec backends; exhaustive table bijection and length-limit sweeps',
